@@ -124,7 +124,7 @@ def replay(ctx, scns, name, jobs=16):
     return trs
 
 
-HEAD_SWITCHES = {"HonorsHost": False, "SchemeBound": True, "StripOnRedirect": True, "FoldCase": False}
+HEAD_SWITCHES = {"HonorsHost": False, "SchemeBound": True, "StripOnRedirect": True, "FoldCase": True}
 
 PROBES = [
     {"id": "probe-s3", "conf": {"op": "bget", "tls": {"A": True, "B": True, "M": True},
@@ -268,13 +268,19 @@ def run(ctx):
         vlib.log("C11: code under test: %s%s" % (sw, "" if sw == HEAD_SWITCHES else " (differs from the default of (D))"))
 
         # 1. exhaustive checks of the design spec.  Default switches = /repo today (cleartext and
-        #    sub-domain repairs in, S3 open); "fixed" = S3 repaired too; "as found" = before the repairs.
+        #    sub-domain and case repairs in, S3 open); "fixed" = S3 repaired too; "as found" = before the repairs.
         mc = [ctx.tlc("AuthMC", "C11_mc_asis.cfg", timeout=3000, workers=8,
                       label="code as is (S3 open), <=3 faults, 17 generator configurations: every leak goes through "
                             "a handler keyed by a foreign host"),
               ctx.tlc("AuthMC", "C11_mc_fixed.cfg" if thorough else
                       write_cfg(ctx, "C11_mc_fixed.cfg", "C11_mc_fixed_q.cfg", {"MaxFaults": 2}), timeout=3000, workers=8,
                       label="S3 repaired too, <=%d faults, 17 generator configurations: no leak" % (3 if thorough else 2))]
+        # the as-found variant of the case sensitive guard (before f7f5652) must still show its leak
+        cx = ctx.tlc("AuthMC", "C11_mc_case_asfound.cfg", timeout=3000, workers=8, allow_violation=True,
+                     label="guard case sensitive as found (before f7f5652): expected counterexample to LeaksOnlyS3")
+        if cx["violated"] != "LeaksOnlyS3" or '"other-spelling"' not in cx["output"]:
+            raise vlib.ToolError("the as-found model of the case sensitive clear text guard no longer shows its leak "
+                                 "(expected a counterexample to LeaksOnlyS3 via other-spelling, got %r)" % cx["violated"])
         if thorough:
             wide = {"Confs": "AllConfs", "MaxFaults": 2}
             mc.append(ctx.tlc("AuthMC", write_cfg(ctx, "C11_mc_asis.cfg", "C11_mc_asis_all.cfg", wide), timeout=3000,
@@ -424,6 +430,8 @@ def run(ctx):
         sample.append({"id": t["id"], "conf": t["scenario"]["conf"], "script": t["scenario"]["script"][:8],
                        "events": t["events"][:12]})
     cov = {
+        "expected_counterexamples": ([] if ctx.replay else
+                                     ["C11_mc_case_asfound.cfg: LeaksOnlyS3 violated via other-spelling (as found before f7f5652)"]),
         "states": sum(r["distinct"] for r in mc), "transitions": sum(r["generated"] for r in mc),
         "traces_validated_against_impl": n_accepted,
         "rejected": n_rejected, "rejection_classes": {s: len(v) for s, v in by_sig.items()},
